@@ -184,7 +184,8 @@ def kmedoids(X, distance_method, n_clusters=None, n_iters=5, assignments=None,
         # distances with value 0.
         local_ctr_inds = [pair[1] for pair in cluster_center_inds \
                           if pair[0] == mpi.rank()]
-        assert np.all(distances[local_ctr_inds] < 0.001)
+        assert np.all(distances[local_ctr_inds] <= 0.001 +
+                      _self_distances(X, distance_method, local_ctr_inds))
 
     else:
         assignments, distances, cluster_center_inds = \
@@ -195,12 +196,20 @@ def kmedoids(X, distance_method, n_clusters=None, n_iters=5, assignments=None,
         
         #Should be all 0s, but machine precision issues means they might
         # be very close to 0 but not eactly 0.
-        assert np.all(distances[cluster_center_inds] < 0.001)
+        assert np.all(distances[cluster_center_inds] <= 0.001 +
+                      _self_distances(X, distance_method, cluster_center_inds))
 
     return _kmedoids_iterations(
                X, distance_method, n_iters, cluster_center_inds,
                assignments, distances, proposals=proposals, args=args, lengths=lengths,
                random_state=random_state)
+
+def _self_distances(X, distance_method, inds):
+    """Distance of each frame X[i], i in inds, to itself. Exactly 0 for
+    most metrics, but round-off for some: md.rmsd computes in float32 and
+    its error grows with the size of the structure."""
+    return np.array([distance_method(X[[i]], X[i])[0] for i in inds],
+                    dtype=float)
 
 def _kmedoids_inputs_tree_mpi(X, distance_method, n_clusters, assignments,
                               distances, cluster_center_inds, X_lengths,
@@ -389,8 +398,8 @@ def ctr_ids_mpi(cluster_center_inds, lengths):
     if not hasattr(cluster_center_inds[0], '__len__'):
         # Convert from [global_frame_ind, ...] to 
         # [[global_traj_id, local_frame_id],...]
-        cluster_center_inds = [[np.where(global_inds == c)[0][0], \
-                           np.where(global_inds == c)[1][0]] for c in \
+        cluster_center_inds = [[ra.where(global_inds == c)[0][0], \
+                           ra.where(global_inds == c)[1][0]] for c in \
                            cluster_center_inds]
 
     # Converting from [[global_traj_id, local_frame_id],...] to 
